@@ -68,7 +68,7 @@ package errutil
 //@   ensures[C16] $cap == lvl - 1
 //@ func NewWithDepth
 //@   props C10 C16 C12
-//@   ensures result != nil && cause1(result) != nil && typeis(cause1(result), *leafError) && cause1(result).(*leafError).msg == rSprint1(safeV(ifaceOf(msg)))
+//@   ensures result != nil && typeis(result, *withstack.withStack) && cause1(result) != nil && typeis(cause1(result), *leafError) && cause1(result).(*leafError).msg == rSprint1(safeV(ifaceOf(msg)))
 //@   ensures[C16] $cap == lvl - 1 - depth
 //@ func Newf
 //@   props C10 C16
